@@ -188,7 +188,7 @@ def shards(tier):
 
 
 def run_shard(spec, ctx):
-    return skel.hyp_chunks(strategies(spec["syn"], spec["ls"], spec["lc"], ctx.pick(8, 10)), check_case, ctx, ctx.pick(5000, 55000), core.Rec(), "lex", chunk=5000)
+    return skel.hyp_chunks(strategies(spec["syn"], spec["ls"], spec["lc"], ctx.pick(8, 10)), check_case, ctx, ctx.pick(5000, 110000), core.Rec(), "lex", chunk=5000)
 
 
 def floors(total, tier):
